@@ -67,6 +67,7 @@ def declare(reg):
             "client": "ref:ClientProxy",
             "examine": "bool",
             "select_while_selected_count": "int",
+            "fetch_while_pending_count": "int",
             "server": "opt[ref:IMAPUserServer]",
             "name": "str",
             "mbox": "opt[ref:Mailbox]",
